@@ -1,4 +1,3 @@
-from math import ceil
 from typing import Optional
 from typing import Tuple
 from typing import cast
@@ -14,6 +13,7 @@ from pfhedge._utils.typing import TensorOrScalar
 from pfhedge.stochastic import generate_local_volatility_process
 
 from .base import BasePrimary
+from .base import n_time_steps
 
 
 class LocalVolatilityStock(BasePrimary):
@@ -123,7 +123,7 @@ class LocalVolatilityStock(BasePrimary):
 
         output = generate_local_volatility_process(
             n_paths=n_paths,
-            n_steps=ceil(time_horizon / self.dt + 1),
+            n_steps=n_time_steps(time_horizon, self.dt),
             sigma_fn=self.sigma_fn,
             init_state=init_state,
             dt=self.dt,
